@@ -11,6 +11,7 @@ CONSTANTS
  MaxServes = 2
  MaxApplies = 2
  Faults = TRUE
+ KeepHist = TRUE
 INVARIANT LogNoRepeats
 INVARIANT LogEndRecorded
 INVARIANT PerClientOrder
